@@ -228,5 +228,47 @@ pub fn record_c11(args: &Args, mut out: Out) -> usize {
             run_event(&img, base_line, &[0, 1, 2, 3], pi, &mut out);
         }
     }
+    // two fixed shapes more.  (1) a weight of exactly 0 held by a player who is not listed last (the notation allows ':0'):
+    // the showdowns still seat everybody and seat order still only permutes the tallies.  (2) a full table: 18 players
+    // with one combo each (seat numbers beyond 8 and 16), under rotations, a reversal and swaps of the outer seats.
+    {
+        let f = rng.distinct(3, 52);
+        let free: Vec<usize> = { let mut v: Vec<usize> = (0..52).filter(|c| !f.contains(c)).collect(); rng.shuffle(&mut v); v };
+        let e = |i: usize, m: u32, ee: u32| { let (a, b) = norm(free[2 * i], free[2 * i + 1]); Entry { a, b, m, e: ee } };
+        let zero = Cfg {
+            flop: [f[0], f[1], f[2]],
+            ranges: vec![vec![e(0, 0, 0), e(1, 1, 1)], vec![e(2, 1, 0), e(3, 3, 2)], vec![e(4, 1, 1), e(0, 1, 0)]],
+            from: (0, 1), to: (48, 49), scoped: false,
+        };
+        let id: Vec<usize> = (0..3).collect();
+        run_event(&zero, 0, &[0, 1, 2, 3], &id, &mut out);
+        let base_line = out.n;
+        for pi in perms(3) {
+            let sg = all_sigma[rng.usize(all_sigma.len())];
+            run_event(&image(&zero, &sg, &pi), base_line, &sg, &pi, &mut out);
+            run_event(&image(&zero, &[0, 1, 2, 3], &pi), base_line, &[0, 1, 2, 3], &pi, &mut out);
+        }
+        let np = 18usize;
+        let full = Cfg { flop: [f[0], f[1], f[2]], ranges: (0..np).map(|i| vec![e(i, 1, (i % 2) as u32)]).collect(), from: (0, 1), to: (48, 49), scoped: false };
+        let id: Vec<usize> = (0..np).collect();
+        run_event(&full, 0, &[0, 1, 2, 3], &id, &mut out);
+        let base_line = out.n;
+        let mut seats: Vec<Vec<usize>> = vec![];
+        seats.push((0..np).map(|i| (i + 1) % np).collect());
+        seats.push((0..np).map(|i| (i + 9) % np).collect());
+        seats.push((0..np).rev().collect());
+        for (x, y) in [(0usize, 16usize), (1, 17), (0, 8)] {
+            let mut p = id.clone();
+            p.swap(x, y);
+            seats.push(p);
+        }
+        let mut p = id.clone();
+        rng.shuffle(&mut p);
+        seats.push(p);
+        for (k, pi) in seats.iter().enumerate() {
+            let sg = if k % 2 == 0 { [0, 1, 2, 3] } else { all_sigma[rng.usize(all_sigma.len())] };
+            run_event(&image(&full, &sg, pi), base_line, &sg, pi, &mut out);
+        }
+    }
     out.finish()
 }
